@@ -738,7 +738,57 @@ func validOp(g *histGen, kind int, now int64, r *rng.R) val.V {
 	}
 }
 
+// directed: a long backlog.  A burst of n events (n well above any batch size a collection might work in), a pause longer
+// than the TTL, then ONE Put whose collection is due (or an explicit GC()): all n are expired at that instant - or all but
+// the five that were put just before the pause.  Afterwards resumptions and further Puts (the ring shrinks step by step).
+func genValidBacklog(c *Ctx) {
+	const ttl = 10
+	sizes := []int{300, 1000}
+	if c.Thorough {
+		sizes = append(sizes, 2000)
+	}
+	for _, n := range sizes {
+		for _, auto := range []bool{false, true} {
+			for gk, gci := range []val.V{val.L(), val.L(val.Z(1)), val.L(val.Z(3 * ttl))} {
+				for variant := 0; variant < 3; variant++ {
+					if n > 300 && (gk != 0 || variant == 2) {
+						continue // the long ones cost tens of megabytes of observed ring states each
+					}
+					g := &histGen{auto: auto}
+					vops := []val.V{}
+					for i := 0; i < n; i++ {
+						vops = append(vops, validOp(g, opPut0, int64(i*4/n), nil)) // instants 0..3: collections fall due on the way, nothing has expired
+					}
+					now := int64(100)
+					switch variant {
+					case 0: // everything expired, one Put
+						vops = append(vops, validOp(g, opPut0, now, nil))
+					case 1: // five more just before the pause; they are alive when the Put comes
+						for i := 0; i < 5; i++ {
+							vops = append(vops, validOp(g, opPut2, 9, nil))
+						}
+						now = 14
+						vops = append(vops, validOp(g, opPut0, now, nil))
+					default: // explicit collection
+						vops = append(vops, validOp(g, -1, now, nil), validOp(g, opPut0, now, nil))
+					}
+					vops = append(vops, validOp(g, opRepNewest, now, nil), validOp(g, opRep3, now, nil), validOp(g, opRep5, now+1, nil),
+						validOp(g, opPut0, now+1, nil), validOp(g, opPut0, now+3*ttl, nil), validOp(g, opRep1, now+3*ttl, nil),
+						validOp(g, opPut0, now+6*ttl, nil), validOp(g, -1, now+9*ttl, nil))
+					c.Count(fmt.Sprintf("directed:backlog-%d", n))
+					c.Emit(val.L(val.Z(ttl), val.Bool(auto), gci, val.List(vops)))
+				}
+			}
+		}
+	}
+}
+
 func genValid(c *Ctx) {
+	genValidBacklog(c)
+	genValidHistories(c)
+}
+
+func genValidHistories(c *Ctx) {
 	c.Emit(val.L(val.Z(0), val.Bool(true), val.L(), val.L()))
 	c.Emit(val.L(val.Z(-5), val.Bool(false), val.L(), val.L()))
 	const ttl = 10
